@@ -161,3 +161,10 @@ package service
 //@   callpre SetBalance: !ghost(bal_stale) && big(v) == ghost(bal)[a] + big(gatheredFee)
 //@   loop 0: invariant true
 //@   loop 1: invariant true
+
+// C08: the BTP digest hash a result commits to, as a function of the result bytes
+//@ property C08
+//@ func BTPDigestHashFromResult(result) (h, err)
+//@   trusted
+//@   pure
+//@   ensures err == nil ==> seq(h) == result_btp(seq(result))
